@@ -28,8 +28,13 @@ fn main() {
             Some("mux") => {
                 let Some((cfg, hist)) = mux::case_from_json(&case) else { vcore::machinery_exit("bad mux replay case") };
                 ctx.with_local(|l| {
-                    if let Err((step, f)) = mux::replay(cfg, &hist, Some(l)) {
-                        mux::report(&ctx, l, cfg, &hist, step, f);
+                    l.eval();
+                    match mux::replay(cfg, &hist, Some(l)) {
+                        Err((_, f)) if f.key == mux::NOT_ENABLED => {
+                            eprintln!("[C16] replay: {} - the recorded history is not executable on this tree, nothing to judge", f.what)
+                        }
+                        Err((step, f)) => mux::report(&ctx, l, cfg, &hist, step, f),
+                        Ok(_) => {}
                     }
                 });
             }
@@ -74,6 +79,12 @@ fn main() {
     ctx.assume("a v4-mapped source of the queried IPv4 address, an empty question section and (randomisation off) another letter case satisfy the stated predicate: accepting or skipping them is not judged");
     ctx.assume("canonical-key argument (b): requests are sent in index order, keys use indices instead of ids; a run in which a new request draws the id of an earlier, no longer pending one is re-executed");
 
+    // one sample history of part (b) up front (part (a) fills the remaining sample slots)
+    ctx.with_local(|l| {
+        use mux::Ev::*;
+        let (cfgs, _) = mux::configs(!ctx.quick());
+        l.sample(mux::case_json(&cfgs[0], &[Send, Send, Deliver(1), Unknown, Timer(0), Poll, Deliver(0), StreamEnd, Poll]));
+    });
     udp::run(&ctx);
     mux::run(&ctx);
 
